@@ -62,17 +62,21 @@ def _worker(args):
 
 def _child(conn, args):
     try:
+        from pyvc import smt
+        smt.HEARTBEAT[0] = lambda cap: conn.send(('hb', cap))
         conn.send(_worker(args))
     finally:
         conn.close()
 
 
+SILENCE_MIN = 240.0      # a worker is presumed stuck when it has been silent for max(SILENCE_MIN, 2.5 * cap + 30) seconds
+
+
 def _task_limits(prop, tasks, tier):
     """wall-clock limit per task attempt: from the time the task took when the baseline was recorded (generous factor:
     the verification harness was measured about three times slower than the machine the baseline was recorded on)"""
-    rec = (load_json(os.path.join(HERE, 'baseline_obligations.json'), {}).get(prop) or {}).get('wall_s', {})
-    cap = 420.0 if tier == 'quick' else 3600.0
-    return dict((k, min(cap, 60.0 + 8.0 * rec[k]) if k in rec else cap) for k in tasks)
+    cap = 1000.0 if tier == 'quick' else 5400.0     # (the worker itself stops posing queries after 600 s / 3600 s)
+    return dict((k, cap) for k in tasks)
 
 
 def _run_tasks(ctx, nproc, jobs, limits, attempts=3):
@@ -82,6 +86,7 @@ def _run_tasks(ctx, nproc, jobs, limits, attempts=3):
     that never returns is reported as a checker problem (exit 3), never as a violation."""
     pending = [(j, 1) for j in jobs]
     running = {}         # key -> (process, conn, t0, job, attempt)
+    beats = {}           # key -> (time of the last heartbeat, wall-clock cap of the solver call it announced)
     out = {}
     while pending or running:
         while pending and len(running) < nproc:
@@ -93,33 +98,41 @@ def _run_tasks(ctx, nproc, jobs, limits, attempts=3):
             pr.start()
             b.close()
             running[job[1]] = (pr, a, time.time(), job, att)
+            beats[job[1]] = (time.time(), 120.0)
         time.sleep(0.05)
         for key in list(running):
             pr, conn, t0, job, att = running[key]
             done = False
-            if conn.poll():
+            while not done and conn.poll():
                 try:
-                    k, results, meta, err = conn.recv()
-                    meta['attempts'] = att
-                    out[k] = (results, meta, err)
-                    done = True
+                    msg = conn.recv()
                 except EOFError:
-                    pass
+                    break
+                if isinstance(msg, tuple) and len(msg) == 2 and msg[0] == 'hb':
+                    beats[key] = (time.time(), msg[1])
+                    continue
+                k, results, meta, err = msg
+                meta['attempts'] = att
+                out[k] = (results, meta, err)
+                done = True
             if not done and not pr.is_alive() and not conn.poll():
                 out[key] = ([], {'wall_s': time.time() - t0, 'attempts': att},
                             ('crash', 'worker process ended without a result (exit code %s)' % pr.exitcode, ''))
                 done = True
-            if not done and time.time() - t0 > limits.get(key, 420.0):
+            lb, lcap = beats.get(key, (t0, 120.0))
+            silent = time.time() - lb
+            stuck = silent > max(SILENCE_MIN, 2.5 * lcap + 30.0)
+            if not done and (stuck or time.time() - t0 > limits.get(key, 1000.0)):
                 pr.kill()
                 pr.join(5)
                 conn.close()
                 del running[key]
                 if att < attempts:
-                    print('  task %s exceeded %.0f s (attempt %d): worker killed, task restarted' % (key, limits.get(key, 420.0), att))
+                    print('  task %s: no sign of life for %.0f s after %.0f s (attempt %d): worker killed, task restarted' % (key, silent, time.time() - t0, att))
                     pending.append((job, att + 1))
                 else:
                     out[key] = ([], {'wall_s': time.time() - t0, 'attempts': att},
-                                ('crash', 'no result within %.0f s in %d attempts (solver not terminating)' % (limits.get(key, 420.0), att), ''))
+                                ('crash', 'no result in %d attempts (solver call not returning: silent for %.0f s)' % (att, silent), ''))
                 continue
             if done:
                 pr.join(5)
